@@ -1,3 +1,4 @@
+import inspect
 import operator
 from functools import wraps
 from typing import Any, Callable, Dict, List, Optional, Type, Union
@@ -303,6 +304,13 @@ class AstToDjangoQVisitor(visitor.NodeVisitor):
                 kwargs[arg.name.name] = arg.param
             else:
                 args.append(arg)
+
+        # Named parameters are passed by keyword, so their names are user input:
+        # refuse names the function does not have instead of failing on the call.
+        try:
+            inspect.signature(q_gen).bind(*args, **kwargs)
+        except TypeError:
+            raise ex.ArgumentTypeException(func_name)
 
         res = q_gen(*args, **kwargs)
         return res
